@@ -23,6 +23,9 @@ pub struct PW<'a> {
     pub watch: Vec<(String, Addr)>,
     pub watch_denoms: Vec<(String, String)>,
     pub base: Vec<Vec<u128>>,
+    /// the next deposit names its receiver by this (unparseable) string; the contract falls back to the sender, which is what
+    /// the event then says ("receiver": "none")
+    pub raw_receiver: Option<String>,
 }
 
 pub fn fees(protocol: u64, swap: u64, burn: u64, extra: &[u64]) -> PoolFee {
@@ -75,7 +78,7 @@ impl<'a> PW<'a> {
         let mask = Mask { pools: true, farms: true, epoch: true, owners: false };
         let st = s.snapshot(mask);
         t.reset(name, st);
-        PW { s, t, mask, model_note: None, watch: vec![], watch_denoms: vec![], base: vec![] }
+        PW { s, t, mask, model_note: None, watch: vec![], watch_denoms: vec![], base: vec![], raw_receiver: None }
     }
     pub fn user(&self, i: usize) -> Addr {
         self.s.users[i].clone()
@@ -161,7 +164,7 @@ impl<'a> PW<'a> {
         let m = pm::ExecuteMsg::ProvideLiquidity {
             liquidity_max_slippage: liq_slip,
             swap_max_slippage: swap_slip,
-            receiver: receiver.map(|a| a.to_string()),
+            receiver: self.raw_receiver.take().or(receiver.map(|a| a.to_string())),
             pool_identifier: pool.to_string(),
             unlocking_duration: lock_dur,
             lock_position_identifier: lock_id.map(|s| s.to_string()),
@@ -530,6 +533,16 @@ fn sc_liquidity(t: &mut Tracer, ss_decs: [u8; 2], name: &str) {
     let (a, b, c) = (w.user(2), w.user(3), w.user(4));
     let lp = w.user(1);
     let d = |x: u8| 10u128.pow(x as u32);
+    // a receiver that is not an address: the deposit goes to the sender, whatever its shape
+    for shape in 0..4 {
+        w.raw_receiver = Some("not-an-address".into());
+        match shape {
+            0 => { w.provide(&a, "o.cp1", &sorted(vec![coin(5_000 * d(6), "uusdc"), coin(7_000 * d(6), "uusdt")]), None, None, None, None, None); }
+            1 => { w.provide(&a, "o.cp1", &[coin(10_001, "uusdc")], None, None, None, None, Some(Decimal::percent(50))); }
+            2 => { w.provide(&a, "o.cp1", &[coin(10_001, "uusdc")], None, Some(DAY), None, None, Some(Decimal::percent(50))); }
+            _ => { w.provide(&a, "o.ss1", &[coin(10_001, "uusd")], None, None, None, None, Some(Decimal::percent(50))); }
+        }
+    }
     // every provider leaves: the supply is exactly the locked minimum; the next deposit is an ordinary, proportional one
     for (kind, id) in [(CP, "left"), (SS(85), "lefts")] {
         let o = w.user(0);
@@ -753,6 +766,11 @@ fn sc_toggles(t: &mut Tracer) {
             w.provide(&a, &pid, &sorted(vec![coin(1_000_000, "uusdc"), coin(1_000_000, "uusdt")]), None, None, None, None, None);
         }
     }
+    // a toggle sent together with another configuration field: both apply
+    w.update_config(&o, Some(pm::FeatureToggle { pool_identifier: "o.cp2".into(), swaps_enabled: Some(false), deposits_enabled: None, withdrawals_enabled: Some(false) }), Some(coin(1234, "uusd")), &[], "fee and toggle together");
+    w.swap(&a, "o.cp2", &[coin(1000, "uusdt")], "uweth", None, half, None);
+    w.update_config(&o, Some(pm::FeatureToggle { pool_identifier: "o.cp2".into(), swaps_enabled: Some(true), deposits_enabled: None, withdrawals_enabled: Some(true) }), Some(coin(1000, "uusd")), &[], "fee and toggle together, back");
+    w.swap(&a, "o.cp2", &[coin(1000, "uusdt")], "uweth", None, half, None);
     // the swap switch of a three-asset pool does not concern deposits that bring some but not all of its assets
     w.update_config(&o, Some(pm::FeatureToggle { pool_identifier: "o.ss3".into(), swaps_enabled: Some(false), deposits_enabled: None, withdrawals_enabled: None }), None, &[], "ss3 swaps off");
     w.provide(&a, "o.ss3", &sorted(vec![coin(10_000_000, "uusd"), coin(11_000_000, "uusdt")]), None, None, None, None, None);
